@@ -614,6 +614,18 @@ def special_families(extended: bool = False) -> List[Tuple[str, tuple]]:
         out.append(("coincide", ("and", ("cmp", "eq", ("arith", "div", a, I(2)), I(one)), ("cmp", "eq", f, bl))))
         out.append(("coincide", ("and", ("cmp", "eq", ("arith", "mod", a, I(2)), I(one)), ("cmp", "eq", f, bl))))
         out.append(("coincide", ("or", ("cmp", "eq", f, bl), ("not", ("cmp", "le", a, I(one))))))
+    # arithmetic between two integer LITERALS, all sign combinations, inexact quotients (truncation vs floor)
+    for x, y in ((7, 2), (-7, 2), (7, -2), (-7, -2), (8, 3), (-8, 3), (5, -3), (-1, 2)):
+        for op in ("div", "mod"):
+            out.append(("litlit", ("cmp", "eq", a, ("arith", op, I(x), I(y)))))
+            out.append(("litlit", ("cmp", "le", ("arith", op, I(x), I(y)), a)))
+        out.append(("litlit", ("cmp", "eq", ("arith", "div", a, I(y)), ("arith", "div", I(x), I(y)))))
+        out.append(("litlit", ("cmp", "eq", ("arith", "mod", a, I(y)), ("arith", "mod", I(x), I(y)))))
+        out.append(("litlit", ("cmp", "eq", ("arith", "add", a, ("arith", "div", I(x), I(y))), b)))
+    for x, y in ((7, 2), (-7, 2), (2, -7), (-2, -7)):
+        for op in ("sub", "add", "mul"):
+            out.append(("litlit", ("cmp", "eq", a, ("arith", op, I(x), I(y)))))
+        out.append(("litlit", ("cmp", "eq", ("arith", "sub", a, ("arith", "sub", I(x), I(y))), b)))
     for v in (0, 1, 2, -1):
         out.append(("coincide", ("and", ("cmp", "eq", a, I(v)), ("cmp", "eq", ("arith", "add", b, I(v)), I(v)))))
         out.append(("coincide", ("or", ("cmp", "lt", a, I(v)), ("cmp", "eq", ("call", "length", [s]), I(v)))))
